@@ -432,8 +432,10 @@ class _HashCallToVar(ast.NodeTransformer):
         return node
 
 
-def _rolling_loop(stmts, name, doc, consts):
-    """[init assigns…, For var in <seq>: assigns…, Return acc] -> Lean fold.  `consts` are names bound outside (P, B)."""
+def _rolling_loop(stmts, name, doc, consts, init_fn=None, extra=""):
+    """[init assigns…, For var in <seq>: assigns…, Return acc] -> Lean fold.  `consts` are names bound outside (P, B).
+    `init_fn` translates the accumulator's initial value when it is not a plain arithmetic expression; `extra` are further
+    parameters of the generated function."""
     stmts = [s for s in stmts if not is_noise(s)]
     inits, loop, ret = [], None, None
     for s in stmts:
@@ -452,7 +454,7 @@ def _rolling_loop(stmts, name, doc, consts):
     for s in inits:
         t = s.targets[0]
         if isinstance(t, ast.Name) and t.id == acc:
-            init = expr(s.value, Ctx())
+            init = init_fn(s.value) if init_fn else expr(s.value, Ctx())
         elif isinstance(t, ast.Name) and t.id in consts:
             pass                                    # P = self._FP_P / B = self._FP_B: parameters of the translation
         else:
@@ -472,7 +474,7 @@ def _rolling_loop(stmts, name, doc, consts):
     return (f"/-- translated from the loop body of {doc} (the element hash `_hash_element({v})` is the input `{v}`) -/\n"
             f"def {name}StepT ({cs} : Int) ({acc} : Int) ({v} : Int) : Int :=\n" + "\n".join(lines) + f"\n  {acc}\n\n"
             f"/-- translated from {doc}: initial value, loop, return -/\n"
-            f"def {name}T ({cs} : Int) (xs : List Int) : Int :=\n  xs.foldl ({name}StepT {cs}) {init}")
+            f"def {name}T ({cs} : Int) {extra}(xs : List Int) : Int :=\n  xs.foldl ({name}StepT {cs}) {init}")
 
 
 def translate_fingerprint(vsrc, tsrc):
@@ -480,15 +482,52 @@ def translate_fingerprint(vsrc, tsrc):
     out = []
     f = find_func(vt, "_compute_fingerprint_full", "Vector")
     out.append(_rolling_loop(f.body, "computeFingerprintFull", "`Vector._compute_fingerprint_full`", ["P", "B"]))
-    # the list/tuple branch of _hash_element
+    # the container branch of _hash_element: `isinstance(x, (set, list, tuple))` with the accumulator seeded by kind and length
+    # (or the older `isinstance(x, (list, tuple))` starting from 0)
     he = find_func(vt, "_hash_element", "Vector")
     branch = None
     for s in he.body:
-        if isinstance(s, ast.If) and "isinstance(x,(list,tuple))" == ast.unparse(s.test).replace(" ", ""):
+        if isinstance(s, ast.If) and isinstance(s.test, ast.Call) and ast.unparse(s.test.func) == "isinstance" \
+                and ast.unparse(s.test.args[0]) == "x" and isinstance(s.test.args[1], ast.Tuple) \
+                and {"list", "tuple"} <= {ast.unparse(e) for e in s.test.args[1].elts} <= {"set", "list", "tuple"}:
             branch = s
     if branch is None:
         raise TranslateError("_hash_element: no list/tuple branch")
-    out.append(_rolling_loop(branch.body, "hashSequence", "the list/tuple branch of `Vector._hash_element`", ["P", "B"]))
+    body = [b for b in branch.body if not is_noise(b)]
+    seq = "x"
+    if body and isinstance(body[0], ast.Assign) and ast.unparse(body[0].targets[0]) == "items":
+        if ast.unparse(body[0].value) != "_safe_sortable_list(list(x)) if isinstance(x, set) else x":
+            raise TranslateError("_hash_element: items")
+        seq, body = "items", body[1:]            # a set is hashed through its sorted items (the sort stays an oracle)
+    loops = [b for b in body if isinstance(b, ast.For)]
+    if len(loops) != 1 or ast.unparse(loops[0].iter) != seq:
+        raise TranslateError("_hash_element: container loop")
+
+    def seed(node):
+        if isinstance(node, ast.Constant) and isinstance(node.value, int) and not isinstance(node.value, bool):
+            return f"({node.value} : Int)"
+        if isinstance(node, ast.IfExp) and isinstance(node.test, ast.Call) and ast.unparse(node.test.func) == "isinstance" \
+                and ast.unparse(node.test.args[0]) == "x" and ast.unparse(node.test.args[1]) in ("set", "tuple", "list"):
+            k = {"set": 1, "tuple": 2, "list": 3}[ast.unparse(node.test.args[1])]
+            return f"(if kind == {k} then {seed(node.body)} else {seed(node.orelse)})"
+        if isinstance(node, ast.BinOp) and isinstance(node.op, (ast.Add, ast.Mult)):
+            return f"({seed(node.left)} {'+' if isinstance(node.op, ast.Add) else '*'} {seed(node.right)})"
+        if isinstance(node, ast.Call) and ast.unparse(node) == f"len({seq})":
+            return "((n : Nat) : Int)"
+        raise TranslateError("_hash_element: starting value " + ast.unparse(node)[:60])
+
+    seed_text = []
+
+    def seed_call(node):
+        seed_text.append(seed(node))
+        return "(hashSequenceSeedT kind xs.length)"
+
+    loop_text = _rolling_loop(body, "hashSequence", "the container branch of `Vector._hash_element` (`kind`: 1 set — its sorted items —, "
+                              "2 tuple, 3 list)", ["P", "B"], init_fn=seed_call, extra="(kind : Nat) ")
+    out.append("/-- translated from the starting value of the accumulator in the container branch of `Vector._hash_element`\n"
+               "    (`kind`: 1 set, 2 tuple, 3 list; `n` = `len(items)`) -/\n"
+               f"def hashSequenceSeedT (kind n : Nat) : Int :=\n  {seed_text[0]}")
+    out.append(loop_text)
     # Vector.fingerprint: memo logic.  `self._fp` is the state, `self._compute_fingerprint_full()` the parameter `compute`
     vf = find_func(vt, "fingerprint", "Vector")
     body = [s for s in vf.body if not is_noise(s)]
